@@ -175,6 +175,23 @@ func quorumSchedule(rep *lib.Report, tab *extract.Table, r *lib.Rand, chainSeed 
 						code = int64(2 + w.id)
 					}
 				}
+				// monitor (property text): the executed event is what a quorum voted for - the oracles that voted
+				// for exactly this payload hold the required power on their own
+				var support int64
+				counted := map[int]bool{}
+				for _, a := range append(append([]voted(nil), accepted...), voted{oi, v}) {
+					if a.v.nonce == v.nonce && !counted[a.oracle] && canon(ct, a.v.claim, relevantOnly) == canon(ct, pc, relevantOnly) {
+						counted[a.oracle] = true
+						support += ps[a.oracle]
+					}
+				}
+				if support < req {
+					failOnce(rep, lib.Failure{Kind: "monitor", Sig: sigOf("schedule", ct.Go, "executed-without-quorum"),
+						What: fmt.Sprintf("real quorum on %s: a %s was executed although the oracles that voted for it hold power %d < required %d (votes for conflicting claims of the nonce were counted)", module, ct.Go, support, req),
+						Replay: map[string]interface{}{"chain_seed": chainSeed, "module": module, "stakes_fx": stakes, "powers": ps, "required": req,
+							"votes_so_far(oracle,(variant,nonce,hash id))": append([]string(nil), append(votes, lib.Pair(lib.Z(int64(oi)), fmt.Sprintf("(%d, %d, %d)", v.id, v.nonce, v.keyid)))...),
+							"executed": describe(ct, pc)}})
+				}
 				// monitor (property text): every vote tallied in the executed attestation agrees with the
 				// executed object on all execution-relevant fields
 				for _, a := range append(accepted, voted{oi, v}) {
